@@ -248,6 +248,20 @@ class SGen:
             return ("new", [self.value(0)], [("a", self.value(0))])
         return self.row(d - 1)
 
+    def nested(self, depth):
+        """containers that hold Rows at some depth (what asDict(recursive) / pickling / repr must traverse)"""
+        r = self.r
+        inner = ("new", [], [(n, ("lit", gen_atom(r))) for n in r.sample(["p", "q"], r.randint(1, 2))]) if depth <= 0 \
+            else self.nested(depth - 1)
+        k = r.random()
+        if k < 0.3:
+            return ("dict", [("k", inner)] + ([("z", ("lit", gen_atom(r)))] if r.random() < 0.4 else []))
+        if k < 0.6:
+            return ("list", [inner] + ([("lit", gen_atom(r))] if r.random() < 0.4 else []))
+        if k < 0.8:
+            return ("new", [], [("n", inner)])
+        return ("call", ("new", [("lit", "u"), ("lit", "v")], []), [inner, ("lit", gen_val(r, 1))])
+
     def value(self, d):
         r = self.r
         k = r.random()
@@ -266,6 +280,8 @@ class SGen:
         k = r.random()
         row = self.row(d)
         if k < 0.14:
+            if r.random() < 0.25:
+                row = ("new", [], [("w", self.nested(r.randint(0, 2)))])
             return ("repr", row if r.random() < 0.85 else self.value(d))
         if k < 0.30:
             return ("getitem", row, ("lit", gen_key(r)))
@@ -273,10 +289,14 @@ class SGen:
             pool = [n for n in NAMES if n not in ("count", "index")] + ["zz", "__x", "__fields__"]
             return ("getattr", row, r.choice(pool + (["count", "asDict"] if top else [])))
         if k < 0.52:
-            return ("asdict", row, r.random() < 0.6)
+            if r.random() < 0.5:
+                row = ("new", [], [(n, self.nested(r.randint(1, 3))) for n in r.sample(NAMES, r.randint(1, 2))])
+            return ("asdict", row, r.random() < 0.7)
         if k < 0.60:
             return ("contains", ("lit", r.choice(NAMES + [1, None, 1.5])), row if r.random() < 0.8 else self.value(d))
         if k < 0.68:
+            if r.random() < 0.3:
+                row = ("new", [], [("w", self.nested(r.randint(0, 2)))])
             return ("pickle", row)
         if k < 0.76:
             other = row if r.random() < 0.3 else (self.row(d) if r.random() < 0.7 else self.value(d))
@@ -799,6 +819,7 @@ def type_coq(o, T) -> str:
 
 CORPUS = [
     ("new", [], [("x", ("lit", Decimal("1.5")))]),                                      # known deviation
+    ("call", ("setattr", ("new", [], []), "__fields__", ("lit", 3)), [("lit", 1)]),     # known deviation (message)
     ("repr", ("call", ("new", [("lit", "a"), ("lit", "b")], []), [("lit", Decimal("0.25")), ("lit", 1)])),
     ("repr", ("new", [], [("a", ("lit", 1)), ("b", ("lit", "x'y"))])),
     ("call", ("new", [("lit", "a")], []), [("lit", 1), ("lit", 2)]),
@@ -809,6 +830,8 @@ CORPUS = [
     ("asdict", ("new", [("lit", 1)], []), False),
     ("asdict", ("call", ("new", [("lit", "a"), ("lit", "b"), ("lit", "a")], []), [("lit", 1), ("lit", 2), ("lit", 3)]), False),
     ("asdict", ("new", [], [("k", ("new", [], [("n", ("list", [("new", [], [("d", ("lit", {"z": 1}))])]))]))]), True),
+    ("asdict", ("new", [], [("k", ("dict", [("z", ("new", [], [("p", ("lit", 1))]))]))]), True),
+    ("asdict", ("new", [], [("k", ("dict", [("z", ("new", [], [("p", ("lit", 1))]))]))]), False),
     ("setattr", ("new", [], [("a", ("lit", 1))]), "a", ("lit", 2)),
     ("repr", ("setattr", ("new", [], [("a", ("lit", 1))]), "__fields__", ("lit", ["z"]))),
     ("pickle", ("call", ("new", [("lit", "x"), ("lit", "y")], []), [("lit", 1), ("lit", [1.5, None])])),
@@ -862,6 +885,54 @@ def script_signature(s, in_dom: bool, outs=None) -> str:
     return "C19/row-script-differs:" + ">".join(s_kinds(s)[:3])
 
 
+def build_input(lib, specs, is_actual, kind, sch, sch2):
+    """rows (or a DataFrame-like object) of one side, built with that library's constructors"""
+    if specs is None:
+        return None
+    rows = [build(x, lib.Row) for x in specs]
+    if (kind.startswith("df-") and is_actual) or (kind in ("df-df", "list-df", "df-df-schema") and not is_actual):
+        return FakeDF(build_type(sch if is_actual else sch2, lib.T), rows)
+    return rows
+
+
+def helper_outcomes(libs, a_spec, e_spec, kind, sch, sch2, order, rtol, atol):
+    outs = []
+    for lib in libs:
+        a = build_input(lib, a_spec, True, kind, sch, sch2)
+        e = build_input(lib, e_spec, False, kind, sch, sch2)
+        outs.append(outcome(helper_call(lib, a, e, order, rtol, atol), lib.Row, helper=True))
+    return outs
+
+
+def shrink_helper(libs, m):
+    """drop rows / DataFrame wrappers while the two verdicts still differ"""
+    a, e, kind = list(m["actual"] or []), list(m["expected"] or []), m["kind"]
+    if m["actual"] is None or m["expected"] is None:
+        return m
+
+    def bad(a_, e_, kind_):
+        try:
+            o = helper_outcomes(libs, a_, e_, kind_, m["sch"], m["sch2"], m["order"], m["rtol"], m["atol"])
+        except Exception:  # noqa: BLE001
+            return None
+        return o if o[0] != o[1] else None
+    changed = True
+    while changed:
+        changed = False
+        if kind != "list" and bad(a, e, "list"):
+            kind, changed = "list", True
+            continue
+        for i in range(max(len(a), len(e))):
+            a2, e2 = a[:i] + a[i + 1:], e[:i] + e[i + 1:]
+            if bad(a2, e2, kind):
+                a, e, changed = a2, e2, True
+                break
+    o = bad(a, e, kind)
+    if not o:
+        return m
+    return dict(m, actual=a, expected=e, kind=kind, o_sf=o[0], o_ps=o[1])
+
+
 def helper_call(lib, act, exp, order, rtol, atol):
     return lambda: lib.U.assertDataFrameEqual(act, exp, checkRowOrder=order, rtol=rtol, atol=atol)
 
@@ -885,6 +956,16 @@ def run(ctx: core.Ctx):
         proved = ctx.prove([gen("C19Sf"), gen("C19Ps"), core.COQ + "/props/C19.v"],
                            dep_theories=["C19/PyVal.v", "C19/Script.v", "C19/Check.v"])
     import os
+    refuted_ok = None
+    if proved:
+        # the refutation witnesses stop holding when sqlframe removes the deviation: that is not an alarm, unless the
+        # deviation still reproduces on the implementation (decided after T3)
+        rc, out, err, dt, cmd = ctx.coqc(core.COQ + "/props/C19_refuted.v")
+        refuted_ok = rc == 0
+        if refuted_ok:
+            ctx.prove([core.COQ + "/props/C19_refuted.v"])
+        else:
+            ctx.log("C19_refuted.v does not compile: " + (err or out)[-300:].replace("\n", " "))
     if not (os.path.exists(gen("C19Sf") + "o") and os.path.exists(gen("C19Ps") + "o")):
         # the case files need Gen.C19Sf/Ps: fall back to the translation of the pinned sources so the search can run
         for n in ("C19Sf", "C19Ps"):
@@ -964,10 +1045,10 @@ def run(ctx: core.Ctx):
     n_h = 1100 if quick else 10000
     specials = [("none-none", None, None), ("none-left", None, []), ("none-right", [], None)]
     for i in range(n_h + len(specials)):
+        sch = sch2 = ("struct", [])
         if i < len(specials):
             variant, a_spec, e_spec = specials[i]
             order, rtol, atol = False, 1e-05, 1e-08
-            build_in = lambda lib, spec: spec
             topdec = False
             kind = "list"
         else:
@@ -976,17 +1057,11 @@ def run(ctx: core.Ctx):
             kind = rnd.choice(["list", "list", "list", "df-df", "df-list", "list-df", "df-df-schema"])
             sch = gen_struct(rnd, 1)
             sch2 = mutate_type(rnd, sch) if kind == "df-df-schema" else sch
-
-            def build_in(lib, specs, kind=kind, sch=sch, sch2=sch2, a_spec=a_spec):
-                rows = [build(x, lib.Row) for x in specs]
-                is_actual = specs is a_spec
-                if (kind.startswith("df-") and is_actual) or (kind in ("df-df", "list-df", "df-df-schema") and not is_actual):
-                    return FakeDF(build_type(sch if is_actual else sch2, lib.T), rows)
-                return rows
         enc, outs = [], []
         try:
             for lib in libs:
-                a, e = build_in(lib, a_spec), build_in(lib, e_spec)
+                a = build_input(lib, a_spec, True, kind, sch, sch2)
+                e = build_input(lib, e_spec, False, kind, sch, sch2)
 
                 def encode(x, lib=lib):
                     if isinstance(x, FakeDF):
@@ -1003,24 +1078,31 @@ def run(ctx: core.Ctx):
             continue
         h_seen.add(text)
         h_items.append(text)
-        h_metas.append({"variant": variant, "kind": kind, "actual": a_spec, "expected": e_spec, "order": order,
+        h_metas.append({"variant": variant, "kind": kind, "sch": sch, "sch2": sch2, "actual": a_spec, "expected": e_spec, "order": order,
                         "rtol": rtol, "atol": atol, "o_sf": outs[0], "o_ps": outs[1], "topdec": topdec})
         bump("helper_variant", variant)
         bump("helper_verdict_ps", outs[1])
         bump("helper_input_kind", kind)
     ctx.log(f"{len(h_items)} distinct helper cases")
     h_res = ctx.cases("c19h", HEADER, h_items, per_file=100, result_ty="str", fn="check_h")
+    n_shrunk = 0
     for it, m, r in zip(h_items, h_metas, h_res):
         if r is None or len(r) != 5:
             continue
         msf, mps, same, same_in, mm = (c == "1" for c in r)
-        desc = {"kind": "assertDataFrameEqual", "variant": m["variant"], "input_kind": m["kind"],
-                "actual": repr(m["actual"]), "expected": repr(m["expected"]),
-                "checkRowOrder": m["order"], "rtol": m["rtol"], "atol": m["atol"], "sqlframe": m["o_sf"],
-                "pyspark": m["o_ps"],
-                "flags(model_sf=impl_sf,model_ps=impl_ps,impl_sf=impl_ps,same_inputs,model_sf=model_ps)": r}
+        def hdesc(m):
+            return {"kind": "assertDataFrameEqual", "variant": m["variant"], "input_kind": m["kind"],
+                    "schema_actual": repr(m["sch"]), "schema_expected": repr(m["sch2"]),
+                    "actual": repr(m["actual"]), "expected": repr(m["expected"]),
+                    "checkRowOrder": m["order"], "rtol": m["rtol"], "atol": m["atol"], "sqlframe": m["o_sf"],
+                    "pyspark": m["o_ps"],
+                    "flags(model_sf=impl_sf,model_ps=impl_ps,impl_sf=impl_ps,same_inputs,model_sf=model_ps)": r}
+        desc = hdesc(m)
         if not same:
             sig = KNOWN_DECIMAL if (m["topdec"] and not same_in) else "C19/assertDataFrameEqual-verdict-differs:" + m["variant"]
+            if sig != KNOWN_DECIMAL and n_shrunk < 12:
+                n_shrunk += 1
+                desc = hdesc(shrink_helper(libs, m))
             ctx.deviation(sig, "assertDataFrameEqual accepts/rejects differently from PySpark's helper", desc)
         elif not (msf and mps):
             model_fail.append(desc)
@@ -1073,6 +1155,14 @@ def run(ctx: core.Ctx):
         import json
         with open(os.environ["C19_DEBUG"], "w") as f:
             json.dump({"model_fail": model_fail, "thm_fail": thm_fail}, f, indent=1, default=str)
+    decimal_reproduces = any(d["signature"] == KNOWN_DECIMAL for d in ctx.deviations)
+    if refuted_ok is False and decimal_reproduces:
+        ctx.broken("proof:C19_refuted.v", "the Decimal deviation reproduces on the implementation but its Coq witness "
+                   "(C19_refuted_decimal) no longer checks against the regenerated model")
+    if refuted_ok and not decimal_reproduces:
+        ctx.broken("T3:refuted-vs-impl", "C19_refuted_decimal holds of the generated model but the deviation does not "
+                   "reproduce on the implementation")
+    ctx.coverage["refutation_witnesses_check"] = refuted_ok
     if model_fail:
         ctx.broken("T3:impl-vs-model", f"{len(model_fail)} cases where both implementations agree but a generated model "
                    f"computes something else; first: {str(model_fail[0])[:600]}", data=model_fail[:5])
@@ -1121,12 +1211,11 @@ def replay(ctx: core.Ctx, rp: dict) -> int:
         outs = _row_outcomes(s, libs)
     elif kind == "assertDataFrameEqual":
         a_spec, e_spec = eval(r["actual"], env), eval(r["expected"], env)
-        print("actual:", a_spec, "\nexpected:", e_spec, "\noptions:", r["checkRowOrder"], r["rtol"], r["atol"])
-        outs = []
-        for lib in libs:
-            a = None if a_spec is None else [build(x, lib.Row) for x in a_spec]
-            e = None if e_spec is None else [build(x, lib.Row) for x in e_spec]
-            outs.append(outcome(helper_call(lib, a, e, r["checkRowOrder"], r["rtol"], r["atol"]), lib.Row, helper=True))
+        ik = r.get("input_kind", "list")
+        sch, sch2 = eval(r.get("schema_actual", "('struct', [])"), env), eval(r.get("schema_expected", "('struct', [])"), env)
+        print("actual:", a_spec, "\nexpected:", e_spec, "\ninput kind:", ik, sch, sch2,
+              "\noptions:", r["checkRowOrder"], r["rtol"], r["atol"])
+        outs = helper_outcomes(libs, a_spec, e_spec, ik, sch, sch2, r["checkRowOrder"], r["rtol"], r["atol"])
     elif kind == "assertSchemaEqual":
         t1, t2 = eval(r["actual"], env), eval(r["expected"], env)
         outs = []
